@@ -2062,8 +2062,12 @@ int EGLPNUM_TYPENAME_ILLlib_chgsense (
 																 will be zero, i.e. an equation. */
 			qslp->sense[rowlist[i]] = 'R';
 			EGLPNUM_TYPENAME_EGlpNumZero(qslp->lower[j]);
-			EGLPNUM_TYPENAME_EGlpNumZero(qslp->upper[j]);
+			if (qslp->rangeval)
+				EGLPNUM_TYPENAME_EGlpNumCopy(qslp->upper[j], qslp->rangeval[rowlist[i]]);
+			else
+				EGLPNUM_TYPENAME_EGlpNumZero(qslp->upper[j]);
 			EGLPNUM_TYPENAME_EGlpNumOne(A->matval[k]);
+			EGLPNUM_TYPENAME_EGlpNumSign(A->matval[k]);
 			break;
 		case 'E':									/* Artificial */
 			qslp->sense[rowlist[i]] = 'E';
@@ -3461,6 +3465,7 @@ int EGLPNUM_TYPENAME_ILLlib_chgrange (
 	}
 	
 	EGLPNUM_TYPENAME_EGlpNumCopy(qslp->rangeval[indx], coef);
+	EGLPNUM_TYPENAME_EGlpNumCopy(qslp->upper[qslp->rowmap[indx]], coef);
 
 CLEANUP:
 
